@@ -76,11 +76,12 @@ type eligibility struct {
 	minTotal, maxTotal int64
 	// unpriced: a candidate publishes its price in a foreign token for which the feed has no usable rate; the batch
 	// cannot be priced and the statement says nothing about what then happens to it (C11 still demands progress)
-	unpriced bool
+	unpriced    bool
+	unpricedSet map[string]bool
 }
 
 func (x *Exec) eligible(c *types.RequestContext, post *Snap) eligibility {
-	e := eligibility{must: map[string]bool{}, may: map[string]bool{}}
+	e := eligibility{must: map[string]bool{}, may: map[string]bool{}, unpricedSet: map[string]bool{}}
 	capv := coinsStake(c.ServiceFeeCap)
 	for _, p := range c.Providers {
 		b, ok := post.Bindings[bkey(c.ServiceName, p)]
@@ -94,6 +95,7 @@ func (x *Exec) eligible(c *types.RequestContext, post *Snap) eligibility {
 		fees := hp.AcceptableFees(post.Time, x.tr.Vol[volKey(c.Consumer, c.ServiceName, p)], post.Rates)
 		if fees == nil {
 			e.unpriced = true
+			e.unpricedSet[hx(p)] = true
 			continue
 		}
 		if hp.Foreign() {
@@ -219,7 +221,29 @@ func oracleC06(x *Exec, r *StepRec) {
 		}
 		e := x.eligible(pc, post)
 		if e.unpriced {
+			// a candidate cannot be priced (no usable exchange rate). The statement does not say whether the whole batch
+			// waits or the priceable providers are served; what it does say still holds: "exactly those providers" —
+			// every provider that is eligible on its own merits is treated alike, and nobody ineligible gets a request
 			x.stats.inc("probe_unpriced_batch")
+			if len(newReqs[id]) > 0 {
+				got := map[string]bool{}
+				for _, rid := range newReqs[id] {
+					got[hx(post.Req[rid].Provider)] = true
+				}
+				origin := map[string]string{"context_origin": x.ctxOrigin(id), "exchange_rate": "unavailable"}
+				for _, p := range sortedKeys(e.must) {
+					if !got[p] {
+						x.viol("C06", "issued_set", fmt.Sprintf("height %d: context %s: a batch was issued while a candidate could not be priced, but eligible provider %s got no request although others did", post.Height, id[:12], p), origin)
+						return
+					}
+				}
+				for _, p := range sortedKeys(got) {
+					if !e.may[p] && !e.unpricedSet[p] {
+						x.viol("C06", "issued_set", fmt.Sprintf("height %d: context %s: request issued to ineligible provider %s (%s)", post.Height, id[:12], p, whyIneligible(pc, post, p)), origin)
+						return
+					}
+				}
+			}
 			continue
 		}
 		thr := int(pc.ResponseThreshold)
